@@ -187,7 +187,11 @@ class Session(object):
         rec.submitted_t = self.clock.tick()
         self.trace.append(("S", rec.idx, stage or self.stage))
         try:
-            if spec.get("perline"):
+            if spec.get("api") == "incremental":
+                # public per-line API: GETINFO <key> with a line callback
+                assert spec["cmd"].startswith("GETINFO ")
+                d = self.proto.get_info_incremental(spec["cmd"][8:], lambda l, rec=rec: self._line(rec, l))
+            elif spec.get("perline"):
                 d = self.proto.queue_command(spec["cmd"], lambda l, rec=rec: self._line(rec, l))
             else:
                 d = self.proto.queue_command(spec["cmd"])
